@@ -25,7 +25,7 @@ from ..gen import models as gm
 
 PROPERTY = "C17"
 LEVEL = "exploration"
-RULE = ("cases = algorithm configuration: Optimizer x {SGD+momentum, Adam, AdamW, Adagrad, RMSprop, LBFGS} x {no scheduler, LambdaLR, StepLR, ExponentialLR} on an ELBO "
+RULE = ("cases = algorithm configuration: Optimizer x {SGD+momentum, Adam, AdamW, Adagrad, RMSprop, LBFGS} x {no scheduler, LambdaLR, StepLR, ExponentialLR, MultiStepLR, CosineAnnealingLR} on an ELBO "
         "or a MAP objective; MCMC x {scaler, sliding window, Dirichlet, GMRF block update, HMC with no adaptor / AdaptiveStepSize / DualAveragingStepSize / "
         "MassMatrixAdaptor (plain, variance_window, swap_every) / combinations, diagonal or dense mass} x parameter dtype {float32, float64} x {tensor, nn.Parameter} "
         "x definition {tensor, full, zeros, full_like} x checkpoint frequency; every checkpoint of a 12-iteration run is restarted; non-trivial = restart compared "
@@ -43,7 +43,7 @@ FLOORS = {"restarts": {"quick": 120, "thorough": 1200}, "restarts_from_two_files
 
 F64 = "torch.float64"
 OPTIMS = ["SGD", "SGD-plain", "Adam", "AdamW", "Adagrad", "RMSprop", "LBFGS"]  # SGD-plain: no momentum, no per-parameter optimiser state
-SCHED = ["none", "LambdaLR", "StepLR", "ExponentialLR"]
+SCHED = ["none", "LambdaLR", "StepLR", "ExponentialLR", "MultiStepLR", "CosineAnnealingLR"]
 MCMC_OPS = ["scaler-view", "sliding-cat", "scaler", "sliding", "dirichlet", "block", "hmc", "hmc-adaptive", "hmc-dual", "hmc-mass", "hmc-mass-window", "hmc-mass-swap", "hmc-dual+mass", "mixed"]
 
 
@@ -149,6 +149,10 @@ def optimizer_spec(case, rng, ckpt):
         opt["scheduler"] = {"id": "sch", "type": "Scheduler", "scheduler": "torch.optim.lr_scheduler.StepLR", "step_size": 2, "gamma": 0.5}
     elif s == "ExponentialLR":
         opt["scheduler"] = {"id": "sch", "type": "Scheduler", "scheduler": "torch.optim.lr_scheduler.ExponentialLR", "gamma": 0.8}
+    elif s == "MultiStepLR":
+        opt["scheduler"] = {"id": "sch", "type": "Scheduler", "scheduler": "torch.optim.lr_scheduler.MultiStepLR", "milestones": [2, 5, 9], "gamma": 0.5}
+    elif s == "CosineAnnealingLR":
+        opt["scheduler"] = {"id": "sch", "type": "Scheduler", "scheduler": "torch.optim.lr_scheduler.CosineAnnealingLR", "T_max": 7}
     return spec + [opt]
 
 
